@@ -167,6 +167,10 @@ class Unit:
             return gb2
         # plain harness (no DFCC): drop functions unreachable from the entry (their obligations and canaries are not part of this proof)
         cmd = ['goto-instrument', '--drop-unused-functions']
+        # plain harnesses: statics would be ZERO-initialised, so a ghost witness global (GK, GSID, ...) would silently cover the value 0 only.
+        # Make every static nondeterministic, as DFCC does for its harness; a harness that needs a definite start value assigns it.
+        if not proof.get('zero_statics'):
+            cmd.append('--nondet-static')
         if proof.get('loop_contracts'):
             cmd += ['--apply-loop-contracts']      # callee still has loops: loop contracts without frame checking
         rc, out, err, dt = run(cmd + [gb, gb2], 300, mem_gb=8)
